@@ -269,7 +269,27 @@ def run(ctx, prop):
             if h is not None:
                 fs = [h]
         if len(fs) != 1:
-            ctx.ob(R, key, False, "pinned function %s not found (anchor missing)" % q)
+            # renamed? the unique sibling (same impl / module, not itself pinned) that has exactly the reference meaning
+            parent = q.rsplit("::", 1)[0]
+            ref0 = {k: set(v) for k, v in e["rows"].items()}
+            cands = []
+            for g in ctx.F.fns:
+                if g.in_testonly() or g.kind not in ("fn", "method") or g.qname in table or g.qname.rsplit("::", 1)[0] != parent or len(g.blocks) > 80:
+                    continue
+                try:
+                    r2, _, _ = rows_of(ctx, ctx.F.body_of(g))
+                except Exception:
+                    continue
+                if "effects" in e:
+                    r2["<effects>"] = set(effects_of(ctx, ctx.F.body_of(g))[0])
+                    ref0["<effects>"] = set(e["effects"])
+                if r2 == ref0:
+                    cands.append(g)
+            if len(cands) == 1:
+                ctx.note("%s: %s is %s in this tree (same reference meaning)" % (R, q, cands[0].qname))
+                ctx.ob(R, key, True, "renamed to %s; %s" % (cands[0].name, e["why"]), cands[0].loc())
+            else:
+                ctx.ob(R, key, False, "pinned function %s not found (anchor missing)" % q)
             continue
         f = ctx.F.body_of(fs[0]) if hasattr(ctx.F, "body_of") else fs[0]
         rows, is_open, calls = rows_of(ctx, f)
